@@ -1,7 +1,7 @@
 /-
 Model of the Basic credentials path of src/auth/basic/Config.cc:
 `Auth::Basic::Config::decodeCleartext` (header trimming, strtok at LF, buffer of
-BASE64_DECODE_LENGTH(srcLen)+1 bytes, base64 decode, NUL terminator, embedded-NUL and CR/LF rejection) and the
+BASE64_DECODE_LENGTH(srcLen)+1 bytes, base64 decode, NUL terminator, CR/LF rejection) and the
 credential split of `Auth::Basic::Config::decode` (first colon, Tolower of the user name when
 `casesensitive` is off, missing / empty password).  `utf8` is off (the default); the name-cache
 lookup that follows the split is C46's subject.
@@ -42,19 +42,18 @@ deriving DecidableEq, Repr
 /-- trimming done before decoding: skip the scheme token, then white space, then cut at LF -/
 def payload (hdr : Bytes) : Bytes := strtokLF ((hdr.dropWhile isGraph).dropWhile isSpace)
 
-def clearMem (lim : Nat) (hdr : Bytes) : ClearMem :=
+def clearMem (hdr : Bytes) : ClearMem :=
   let eek := payload hdr
-  let r := decodeUpdate lim decodeInit eek
+  let r := decodeUpdate decodeInit eek
   { size := decodeLength eek.length + Gen.Base64.cleartextExtra
     written := r.2.1.length
     nulAt := if r.2.2 = .ok ∧ decodeFinal r.1 then some r.2.1.length else none }
 
 /-- `decodeCleartext`: the returned C string, `none` = nullptr.  (`hdr` is a C string: NUL free) -/
-def decodeCleartext (lim : Nat) (hdr : Bytes) : Option Bytes :=
+def decodeCleartext (hdr : Bytes) : Option Bytes :=
   let eek := payload hdr
-  let r := decodeUpdate lim decodeInit eek
+  let r := decodeUpdate decodeInit eek
   if r.2.2 = .ok ∧ decodeFinal r.1 then
-    if r.2.1.contains 0 then none else   -- memchr(cleartext, '\0', dstLen): embedded NUL refused
     let clear := cstr r.2.1            -- cleartext[dstLen] = '\0'; everything below uses C string functions
     -- utf8 is off: no transcoding
     if clear.any (fun c => c == 13 || c == 10) then none   -- strcspn(cleartext, "\r\n") != strlen(cleartext)
@@ -76,8 +75,8 @@ structure Creds where
 deriving DecidableEq, Repr
 
 /-- the credential split of `Auth::Basic::Config::decode`; `none` = no user attached to the request -/
-def decode (lim : Nat) (caseSensitive : Bool) (hdr : Bytes) : Option Creds :=
-  match decodeCleartext lim hdr with
+def decode (caseSensitive : Bool) (hdr : Bytes) : Option Creds :=
+  match decodeCleartext hdr with
   | none => none
   | some clear =>
     -- separator = strchr(cleartext, ':')
